@@ -13,12 +13,12 @@ let rec int_of_pos = function
   | XI p -> 2 * int_of_pos p + 1
 let int_of_n = function N0 -> 0 | Npos p -> int_of_pos p
 
-let unhex (s : string) : n list =
+let unhex (s : String.t) : n list =
   if s = "-" || s = "" then []
   else
     let len = String.length s / 2 in
     List.init len (fun i -> n_of_int (int_of_string ("0x" ^ String.sub s (2 * i) 2)))
-let hex (b : n list) : string =
+let hex (b : n list) : String.t =
   if b = [] then "-"
   else String.concat "" (List.map (fun x -> Printf.sprintf "%02x" (int_of_n x)) b)
 
@@ -251,7 +251,7 @@ let connect_write args =
 
 (* ---- fragments ------------------------------------------------------------------------ *)
 
-let show_raw (o : (bytes option) outcome option) : string =
+let show_raw (o : (bytes option) outcome option) : String.t =
   match o with
   | None -> "t"
   | Some (Ok None) -> "-"
@@ -316,6 +316,48 @@ let frag_rt ovf args =
       | Panic _ -> raise Model_panic)
   | _ -> "BAD-ARGS"
 
+(* ---- milu -------------------------------------------------------------------------- *)
+
+let char_of_ascii (Ascii (b0, b1, b2, b3, b4, b5, b6, b7)) =
+  let v b k = if b then 1 lsl k else 0 in
+  Char.chr (v b0 0 + v b1 1 + v b2 2 + v b3 3 + v b4 4 + v b5 5 + v b6 6 + v b7 7)
+let rec ocaml_string = function EmptyString -> "" | String (c, r) -> String.make 1 (char_of_ascii c) ^ ocaml_string r
+
+let int_of_z z =
+  (* decimal text of an i64-range integer; negative accumulation so that i64::MIN is representable *)
+  let rec neg p = match p with
+    | XH -> (-1L)
+    | XO q -> Int64.mul 2L (neg q)
+    | XI q -> Int64.sub (Int64.mul 2L (neg q)) 1L in
+  match z with
+  | Z0 -> "0"
+  | Zneg p -> Int64.to_string (neg p)
+  | Zpos p -> let s = Int64.to_string (neg p) in String.sub s 1 (String.length s - 1)
+
+let rec sexp (e : expr) : String.t =
+  match e with
+  | EInt z -> Printf.sprintf "(int %s)" (int_of_z z)
+  | EBool b -> Printf.sprintf "(bool %b)" b
+  | EStr s -> Printf.sprintf "(str %s)" (hex s)
+  | EId s -> Printf.sprintf "(id %s)" (hex s)
+  | EArr l -> "(arr" ^ String.concat "" (List.map (fun x -> " " ^ sexp x) l) ^ ")"
+  | ETup l -> "(tup" ^ String.concat "" (List.map (fun x -> " " ^ sexp x) l) ^ ")"
+  | ENat n -> Printf.sprintf "(nat %s)" (ocaml_string n)
+  | ECall (f, args) -> "(call " ^ sexp f ^ String.concat "" (List.map (fun x -> " " ^ sexp x) args) ^ ")"
+
+let milu_parse args =
+  match args with
+  | [ h ] -> (
+      let src = unhex h in
+      if List.exists (fun c -> int_of_n c = 96) src then "OPAQUE"
+      else if not (utf8_valid src) then "OPAQUE"
+      else
+        match x_milu_parse src with
+        | POk (e, _) -> "OK " ^ sexp e
+        | PErr | PFail -> "ERR"
+        | PPanic -> raise Model_panic)
+  | _ -> "BAD-ARGS"
+
 (* ---- main ----------------------------------------------------------------------------- *)
 
 let run_line ovf line =
@@ -327,6 +369,7 @@ let run_line ovf line =
         | "frag_seq" -> frag_seq ovf args
         | "frag_make" -> frag_make ovf args
         | "frag_rt" -> frag_rt ovf args
+        | "milu_parse" -> milu_parse args
         | "socks_req_read" -> socks_req_read args
         | "socks_req_write" -> socks_req_write args
         | "socks_resp_read" -> socks_resp_read args
